@@ -30,6 +30,9 @@ pub enum WOp
     W3AddBroadcast,
     W3Remove(bool),
     EAdd(u8, u8, u32),
+    /// like `EAdd` through `EntityReactor::add`, but a despawn of the entity is queued just before it in the same batch:
+    /// `add` sees a live entity (returns true), its queued work finds the entity gone and must be a no-op (no panic)
+    EAddDying(u8, u8, u32),
     /// reactor, entity, bitmask of that reactor's triggers to remove
     ERemove(u8, u8, u8),
     /// one `EntityReactor::remove` call whose bundle spans several entities: reactor, [(entity, trigger bitmask)]
@@ -228,6 +231,18 @@ fn op_sys(
                 _ => { if c.get_entity(ent).is_some() { c.entity(ent).add_world_reactor::<E4>((tag, 0)); ret = None; } else { ret = Some(e4.add(&mut c, ent, (tag, 0))); } }
             }
         }
+        WOp::EAddDying(k, e, tag) =>
+        {
+            let ent = pool_entity(e);
+            c.queue(move |w: &mut World| { if let Ok(em) = w.get_entity_mut(ent) { em.despawn(); } });
+            match k as usize % NE
+            {
+                0 => { ret = Some(e1.add(&mut c, ent, (tag, 0))); }
+                1 => { ret = Some(e2.add(&mut c, ent, (tag, 0))); }
+                2 => { ret = Some(e3.add(&mut c, ent, (tag, 0))); }
+                _ => { ret = Some(e4.add(&mut c, ent, (tag, 0))); }
+            }
+        }
         WOp::ERemove(k, e, mask) =>
         {
             let keys: Vec<Key> = e_keys(k, e).into_iter().enumerate().filter(|(i, _)| mask & (1 << i) != 0).map(|(_, k)| k).collect();
@@ -331,7 +346,28 @@ pub struct WOutcome
 
 fn is_trigger(op: &WOp) -> bool
 {
-    matches!(op, WOp::Mutate(_) | WOp::EntityEvent(_) | WOp::Insert(..) | WOp::RemoveComp(_) | WOp::Despawn(_) | WOp::ResMutate | WOp::Broadcast | WOp::Broadcast1 | WOp::WRun(_))
+    matches!(op, WOp::Mutate(_) | WOp::EntityEvent(_) | WOp::Insert(..) | WOp::RemoveComp(_) | WOp::Despawn(_) | WOp::EAddDying(..) | WOp::ResMutate | WOp::Broadcast | WOp::Broadcast1 | WOp::WRun(_))
+}
+
+fn model_despawn(m: &mut Model, e: u8)
+{
+    if m.alive[e as usize]
+    {
+        // entity-scoped removal reactions that were not polled yet die with the entity
+        let mut dead: Vec<usize> = m.unpolled_scoped.iter().filter(|(_, x)| *x == e).map(|(i, _)| *i).collect();
+        dead.sort();
+        for i in dead.into_iter().rev()
+        {
+            m.expected.remove(i);
+            m.unpolled_scoped.retain(|(j, _)| *j != i);
+            for u in m.unpolled_scoped.iter_mut() { if u.0 > i { u.0 -= 1; } }
+        }
+        if m.has_ca[e as usize] { m.expect_for(&|k| *k == Key::Removal(0), vec![Item::Rem(0, EntRef::Pool(e))], None); }
+        m.expect_for(&|k| *k == Key::Despawn(e), vec![Item::Desp(EntRef::Pool(e))], None);
+        m.kill(e);
+        for w in 0..2 { m.wd[w].retain(|k| *k != Key::Despawn(e)); }
+        m.pending = true;
+    }
 }
 
 fn run_inner(case: &WCase, out: &mut WOutcome, prop: &str)
@@ -506,27 +542,21 @@ fn run_inner(case: &WCase, out: &mut WOutcome, prop: &str)
                     m.hit("C16:removal_pending");
                 }
             }
-            WOp::Despawn(e) =>
+            WOp::EAddDying(k, e, _) =>
             {
-                let e = e8(*e);
-                if m.alive[e as usize]
+                let k = *k as usize % NE;
+                *e = e8(*e);
+                let e = *e;
+                // (a second registration of an entity that still has triggers of the reactor is unspecified)
+                if m.alive[e as usize] && !m.er[k][e as usize].0.is_empty() { skip = true; }
+                else
                 {
-                    // entity-scoped removal reactions that were not polled yet die with the entity
-                    let mut dead: Vec<usize> = m.unpolled_scoped.iter().filter(|(_, x)| *x == e).map(|(i, _)| *i).collect();
-                    dead.sort();
-                    for i in dead.into_iter().rev()
-                    {
-                        m.expected.remove(i);
-                        m.unpolled_scoped.retain(|(j, _)| *j != i);
-                        for u in m.unpolled_scoped.iter_mut() { if u.0 > i { u.0 -= 1; } }
-                    }
-                    if m.has_ca[e as usize] { m.expect_for(&|k| *k == Key::Removal(0), vec![Item::Rem(0, EntRef::Pool(e))], None); }
-                    m.expect_for(&|k| *k == Key::Despawn(e), vec![Item::Desp(EntRef::Pool(e))], None);
-                    m.kill(e);
-                    for w in 0..2 { m.wd[w].retain(|k| *k != Key::Despawn(e)); }
-                    m.pending = true;
+                    want_ret = Some(m.alive[e as usize]);
+                    if m.alive[e as usize] { m.hit("C16:add_on_entity_despawned_in_the_same_batch"); }
+                    model_despawn(&mut m, e);
                 }
             }
+            WOp::Despawn(e) => { model_despawn(&mut m, e8(*e)); }
             WOp::ResMutate =>
             {
                 m.expect_for(&|k| *k == Key::ResourceMutation(0), Vec::new(), None);
@@ -540,7 +570,7 @@ fn run_inner(case: &WCase, out: &mut WOutcome, prop: &str)
             }
         }
         // an in-line trigger that runs at least one reactor enters the runner, which polls first
-        if !matches!(op, WOp::RemoveComp(_) | WOp::Despawn(_)) && m.expected.len() > expected_before { m.unpolled_scoped.clear(); }
+        if !matches!(op, WOp::RemoveComp(_) | WOp::Despawn(_) | WOp::EAddDying(..)) && m.expected.len() > expected_before { m.unpolled_scoped.clear(); }
         if !skip
         {
             let ret = world.syscall((op.clone(), payload), op_sys);
@@ -672,7 +702,7 @@ pub fn decode(bytes: &[u8], max_steps: usize) -> WCase
     };
     for _ in 0..n_steps
     {
-        let k = below(byte(&mut u), 29);
+        let k = below(byte(&mut u), 30);
         let e = below(byte(&mut u), n as usize) as u8;
         let x = byte(&mut u);
         let op = match k
@@ -697,6 +727,7 @@ pub fn decode(bytes: &[u8], max_steps: usize) -> WCase
             25 => WOp::Despawn(e),
             26 => WOp::ResMutate,
             28 => WOp::Broadcast1,
+            29 => WOp::EAddDying(x % 4, e, 100 + x as u32),
             _ => WOp::Broadcast,
         };
         let settle = byte(&mut u) % 3 != 0;
@@ -709,7 +740,8 @@ pub fn decode(bytes: &[u8], max_steps: usize) -> WCase
 /// shares counts (world reactors are reactors too):
 /// C01 / C06 - a wrong set of runs (a live registration skipped, a removed trigger still scheduling, a neighbour no longer
 /// working); C08 - a wrong set of runs for a removal or despawn; C07 - a world reactor's system despawned (they are
-/// persistent) or duplicated; C13 - its `Local` not continuous, or the system (and its state) gone. A panic counts for all.
+/// persistent) or duplicated; C13 - its `Local` not continuous, or the system (and its state) gone; C18 - a wrong set of
+/// runs (the histories name dead entities all the time). A panic counts for all.
 pub fn relevant_to(prop: &str, m: &str) -> bool
 {
     if prop == "C16" || m.starts_with("panic: ") { return true; }
@@ -717,7 +749,7 @@ pub fn relevant_to(prop: &str, m: &str) -> bool
     let sys_count = m.contains("system commands exist");
     match prop
     {
-        "C01" | "C06" => run_set,
+        "C01" | "C06" | "C18" => run_set,
         "C08" => run_set && m.ends_with("[removal / despawn reaction]"),
         "C07" => sys_count,
         "C13" => sys_count || m.contains("sees Local="),
